@@ -3,6 +3,8 @@ C09 / C10: control requests change statuses and nothing else.
 -/
 import OrqModel.Proofs.RequestFrame
 import OrqModel.Model.Ops
+import OrqModel.Properties.Status
+import OrqModel.Properties.Next
 
 namespace Orq
 
@@ -41,5 +43,33 @@ theorem C09_request_keeps_record_data (req : Status) (c : Cond) (i : Nat) (r : R
     simp only [Rec.mk.injEq] at hmap
     obtain ⟨h1, h2, h3, h4, h5, h6, _, h8, h9⟩ := hmap
     exact ⟨h6, h3, h4, h5, h1, h2, h8, h9⟩
+
+/-- **C10**, along every rerun-free history after a cancellation took hold: whatever is reported,
+    requested, queried or rendered afterwards, the conductor offers nothing — except, once the
+    workflow has turned `failed` (a runtime error while canceling), the clean-up tasks flagged
+    run-on-fail -/
+theorem C10_history_no_offer_after_cancel (E : Evaluator) (ops : List Op) (hops : ∀ op ∈ ops, op.isRerun = false)
+    (c : Cond) (hc : c.st.status = .canceling ∨ c.st.status = .canceled) (offers : List Offer) (c' : Cond)
+    (h : getNextTasks E (runOps E ops c) = (.ok offers, c')) :
+    offers = [] ∨ ((runOps E ops c).st.status = .failed ∧
+      ∀ o ∈ offers, ∃ sx ∈ (runOps E ops c).st.readyStaged, sx.id = o.id ∧ sx.route = o.route ∧ sx.runOnFail = true) := by
+  have hfam := C10_cancel_family_closed E ops hops c (by rcases hc with hc | hc <;> rw [hc] <;> decide)
+  have hcases : (runOps E ops c).st.status = .canceling ∨ (runOps E ops c).st.status = .canceled ∨
+      (runOps E ops c).st.status = .failed := by
+    revert hfam
+    cases (runOps E ops c).st.status <;> decide
+  rcases hcases with h1 | h1 | h1
+  · left
+    have := C10_no_offer_after_cancel E (runOps E ops c) (Or.inl h1)
+    rw [this] at h
+    simp only [Prod.mk.injEq, Except.ok.injEq] at h
+    exact h.1.symm
+  · left
+    have := C10_no_offer_after_cancel E (runOps E ops c) (Or.inr h1)
+    rw [this] at h
+    simp only [Prod.mk.injEq, Except.ok.injEq] at h
+    exact h.1.symm
+  · right
+    exact ⟨h1, C04_failed_offers_only_run_on_fail E (runOps E ops c) offers c' h1 h⟩
 
 end Orq
